@@ -4,6 +4,9 @@ import (
 	"bytes"
 	"encoding/json"
 	"fmt"
+	"os"
+	"os/exec"
+	"path/filepath"
 	"strings"
 	"sync"
 	"time"
@@ -161,4 +164,114 @@ func tailOf(s string, n int) string {
 		return s[len(s)-n:]
 	}
 	return s
+}
+
+// RepoTestTraces runs hashicorp/hcl's own test suite, built with the hook tag, with the trace
+// recorder of hclsyntax/verif_hook_on.go switched on, and validates every parse the tests perform
+// against the newline-stack protocol: directly, and by TLC against Peeker.tla (Trace_Peeker).
+func RepoTestTraces(c *core.Check, repo string, pkgs []string) {
+	dir := os.Getenv("VERIF_DIR")
+	if dir == "" {
+		dir = "."
+	}
+	path := filepath.Join(dir, ".bin", fmt.Sprintf("repo-test-trace-%d.ndjson", os.Getpid()))
+	os.Remove(path)
+	defer os.Remove(path)
+	args := append([]string{"test", "-tags", "verif", "-vet=off", "-count=1"}, pkgs...)
+	cmd := exec.Command("go", args...)
+	cmd.Dir = repo
+	cmd.Env = append(os.Environ(), "HCL_VERIF_TRACE="+path)
+	done := make(chan error, 1)
+	var out []byte
+	go func() {
+		var err error
+		out, err = cmd.CombinedOutput()
+		done <- err
+	}()
+	select {
+	case err := <-done:
+		c.Extra["repo_tests_with_hooks_passed"] = err == nil
+		if err != nil {
+			c.Extra["repo_tests_with_hooks_output_tail"] = tailOf(string(out), 400)
+		}
+	case <-time.After(15 * time.Minute):
+		cmd.Process.Kill()
+		c.Broken("the repository's tests (built with -tags verif) did not finish within 15 minutes")
+		return
+	}
+	raw, err := os.ReadFile(path)
+	if err != nil || len(raw) == 0 {
+		c.Broken("running the repository's tests with HCL_VERIF_TRACE produced no trace (%v): %s", err, tailOf(string(out), 300))
+		return
+	}
+	type line struct {
+		Ev  string `json:"ev"`
+		O   string `json:"o"`
+		Arg string `json:"arg"`
+	}
+	open := map[string][]pevent{}
+	var complete [][]pevent
+	events := 0
+	for _, ln := range bytes.Split(raw, []byte("\n")) {
+		if len(ln) == 0 {
+			continue
+		}
+		var l line
+		if json.Unmarshal(ln, &l) != nil {
+			continue // a torn line from concurrent writers
+		}
+		var e pevent
+		switch l.Ev {
+		case "peeker.push":
+			e = pevent{Ev: "push", B: b2i(l.Arg == "true")}
+		case "peeker.pop":
+			e = pevent{Ev: "pop", B: b2i(l.Arg == "true")}
+		case "parser.recovery":
+			e = pevent{Ev: "recovery"}
+		case "peeker.assert":
+			n := 0
+			fmt.Sscanf(l.Arg, "%d", &n)
+			e = pevent{Ev: "assert", N: n}
+		default:
+			continue
+		}
+		events++
+		seq := append(open[l.O], e)
+		if e.Ev != "assert" {
+			open[l.O] = seq
+			continue
+		}
+		delete(open, l.O)
+		complete = append(complete, seq)
+	}
+	c.Extra["repo_test_parses_recorded"] = len(complete)
+	c.Extra["repo_test_parser_events"] = events
+	c.Extra["repo_test_parses_without_final_assert"] = len(open)
+	if len(complete) == 0 {
+		c.Broken("the repository's tests recorded no complete parse")
+		return
+	}
+	var buf bytes.Buffer
+	for i, seq := range complete {
+		if m := protocolViolation(seq); m != "" {
+			c.Violation("peeker-protocol/repo-tests", "a parse performed by the repository's own tests broke the newline-stack protocol: "+m, map[string]any{"events": seq, "kind": "peeker"})
+			return
+		}
+		if i > 0 {
+			buf.WriteString(`{"ev":"reset","b":0,"n":0}` + "\n")
+		}
+		for _, e := range seq {
+			j, _ := json.Marshal(e)
+			buf.Write(j)
+			buf.WriteByte('\n')
+		}
+	}
+	st, terr := core.TLCRun{Module: "Trace_Peeker", NoDump: true, Workers: 1, Timeout: 15 * time.Minute,
+		Files: map[string][]byte{"trace_peeker.ndjson": buf.Bytes()}}.Stream(1, func(core.State) {})
+	c.AddTLC(st)
+	if terr != nil || st.ErrorKind != "" || !strings.Contains(st.Output, "Model checking completed. No error") {
+		c.Broken("TLC rejected the peeker traces of the repository's tests although every parse satisfied the protocol check (model drift): %v %s", terr, tailOf(st.Output, 500))
+		return
+	}
+	c.Count("traces_validated", int64(len(complete)))
 }
